@@ -1,0 +1,15 @@
+//go:build verif
+
+package readahead
+
+// Contracts for govc (see /verif/DESIGN.md). Comment-only file.
+
+//@ func dropCR
+//@   pure
+//@   ensures ref(result) == ref(data) && off(result) == off(data)
+//@   ensures len(data) > 0 && data[len(data)-1] == '\r' ==> len(result) == len(data) - 1
+//@   ensures !(len(data) > 0 && data[len(data)-1] == '\r') ==> len(result) == len(data)
+
+//@ func maxi
+//@   pure
+//@   ensures result >= a && result >= b && (result == a || result == b)
